@@ -213,7 +213,8 @@ def handle (args : List String) (impl : String) : String × String :=
       | none => ("bad-op", "bad-op")
       | some src =>
         -- model column: the GENERATED `from_str_radix` (radices are `u64`; `Props/C09.gen_from_str_radix_eq`)
-        ((if radix < 2 ^ 64 then
+        -- (list-based limb arrays and the appended digit list make long inputs at wide types quadratic: capped)
+        ((if radix < 2 ^ 64 ∧ src.length * (nlimbs bits + src.length) ≤ 20000 then
             outGenParse (Ruint.Gen.uint_from_str_radix (src.length + nlimbs bits + 2) bits (nlimbs bits) (src.map Char.toNat) radix)
           else outParse (fromStrRadix bits radix src)), strPred bits radix src impl)
     | "sweep" =>
@@ -266,8 +267,9 @@ def handle (args : List String) (impl : String) : String × String :=
       | none => ("bad-op", "bad-op")
       | some src =>
         let (rest, radix) := sniff src
-        (outGenParse (Ruint.Gen.uint_from_str (src.length + nlimbs bits + 2) bits (nlimbs bits) (src.map Char.toNat)),
-          strPred bits radix rest impl)
+        ((if src.length * (nlimbs bits + src.length) ≤ 20000 then
+            outGenParse (Ruint.Gen.uint_from_str (src.length + nlimbs bits + 2) bits (nlimbs bits) (src.map Char.toNat))
+          else outParse (fromStr bits src)), strPred bits radix rest impl)
     | _ => ("bad-op", "bad-op")
   | _ => ("bad-op", "bad-op")
 
